@@ -517,9 +517,12 @@ func c32(c *engine.Ctx) {
 			if !isS || engine.Describe(st.Addr) != "p:upload.big" {
 				return
 			}
-			if b, isB := st.Val.(*ssa.BinOp); isB && b.Op == token.GTR && engine.Describe(b.X) == "p:upload.totalBytes" {
-				if k, isK := engine.ConstInt(b.Y); isK && k == lim {
-					ok = true
+			if b, isB := st.Val.(*ssa.BinOp); isB {
+				// totalBytes > limit, however written (limit < totalBytes, totalBytes >= limit+1)
+				if cm, isCmp := engine.CmpOf(b); isCmp && engine.Describe(cm.X) == "p:upload.totalBytes" {
+					if k, isK := engine.ConstInt(cm.Y); isK && ((cm.Op == token.GTR && k == lim) || (cm.Op == token.GEQ && k == lim+1)) {
+						ok = true
+					}
 				}
 			}
 		})
